@@ -1,11 +1,11 @@
 (* Props/C09.v -- property C09: the type checker accepts exactly the well-typed scripts and
    predicts value types.  Only statements; every proof is [exact lemma].
 
-   Model/Typing.check_file T G D is the model of passes::type_check::run, parameterised by the
+   Model/TypeCheck.check_file T G D is the model of passes::type_check::run, parameterised by the
    operator typing tables T (Gen/OpClass.v, read from ast/mod.rs and type_check.rs) and the dispatch
    tables D (Gen/TcDispatch.v, read from Visitor::visit_stmt / visit_item and walk_stmt / walk_item).
    Spec/TypingRules.wt_file is the declarative typing relation. *)
-From TV Require Import Base.I32 Base.F32 Model.Ops Model.Expr Model.Typing Spec.TypingRules
+From TV Require Import Base.I32 Base.F32 Model.Ops Model.Expr Model.TypeCheck Spec.TypingRules
   Gen.OpTable Gen.OpClass Gen.TcDispatch
   Proofs.TypingExpr Proofs.TypingSound Proofs.TypingDynamic Proofs.TypingWitness.
 Open Scope Z_scope.
